@@ -22,7 +22,7 @@ type Term struct {
 	Sub      []Term
 	Fields   []Field // struct only, parallel to Sub
 	Nullable bool
-	Default  string // "" | scalar | list | map
+	Default  string // "" | scalar | list | map | zero | emptylist | emptymap
 	Hints    int    // number of hint entries (0..2)
 	Constr   bool   // scalar constraints
 	Disc     bool   // disjunction: discriminator + mapping set
@@ -193,6 +193,10 @@ func (t Term) Build() ast.Type {
 		case "noname": // a member without a name whose value is not the empty string
 			out = ast.NewEnum([]ast.EnumValue{{Type: ast.String(), Name: "", Value: "x"}, {Type: ast.String(), Name: "b", Value: "b"}})
 		default:
+			if vals, ok := seqEnum(t.A); ok {
+				out = ast.NewEnum(vals)
+				break
+			}
 			panic("irgen: enum flavour " + t.A)
 		}
 	case "ref":
@@ -247,6 +251,12 @@ func (t Term) Build() ast.Type {
 		out.Default = []any{"x", "y"}
 	case "map":
 		out.Default = map[string]any{"a": "x"}
+	case "zero": // a declared default that is the zero value of its Go representation
+		out.Default = t.zeroDefault()
+	case "emptylist": // declared, empty but non-nil
+		out.Default = []any{}
+	case "emptymap":
+		out.Default = map[string]any{}
 	}
 	for i := 0; i < t.Hints; i++ {
 		if i == 0 {
@@ -256,6 +266,54 @@ func (t Term) Build() ast.Type {
 		}
 	}
 	return out
+}
+
+// seqEnum builds the parametric enum flavours "seq:m1,m2,..." (string-typed:
+// every member's value is its name) and "iseq:m1,m2,..." (int64-typed: a
+// member whose name parses as an integer has that value, any other member the
+// value 100+index). Member tokens are used verbatim as names, so sequences
+// such as "auto,1,5" (a non-numeric member before numeric ones) can be
+// enumerated member by member.
+func seqEnum(flavour string) ([]ast.EnumValue, bool) {
+	var names []string
+	intTyped := false
+	switch {
+	case strings.HasPrefix(flavour, "seq:"):
+		names = strings.Split(strings.TrimPrefix(flavour, "seq:"), ",")
+	case strings.HasPrefix(flavour, "iseq:"):
+		names = strings.Split(strings.TrimPrefix(flavour, "iseq:"), ",")
+		intTyped = true
+	default:
+		return nil, false
+	}
+	var out []ast.EnumValue
+	for i, n := range names {
+		if !intTyped {
+			out = append(out, ast.EnumValue{Type: ast.String(), Name: n, Value: n})
+			continue
+		}
+		var v int64
+		if _, err := fmt.Sscanf(n, "%d", &v); err != nil || fmt.Sprint(v) != strings.TrimPrefix(n, "+") {
+			v = int64(100 + i)
+		}
+		out = append(out, ast.EnumValue{Type: ast.NewScalar(ast.KindInt64), Name: n, Value: v})
+	}
+	return out, true
+}
+
+// zeroDefault is the default flavour "zero": false, 0, 0.0 or "" depending on the type.
+func (t Term) zeroDefault() any {
+	switch v := t.scalarDefault().(type) {
+	case bool:
+		return false
+	case float64:
+		return float64(0)
+	case int64:
+		return int64(0)
+	default:
+		_ = v
+		return ""
+	}
 }
 
 func (t Term) scalarDefault() any {
@@ -276,7 +334,7 @@ func (t Term) scalarDefault() any {
 			return int64(1)
 		}
 	case "enum":
-		if t.A == "str" || t.A == "odd" || t.A == "space" || t.A == "noname" || t.A == "strnum" {
+		if t.A == "str" || t.A == "odd" || t.A == "space" || t.A == "noname" || t.A == "strnum" || strings.HasPrefix(t.A, "seq:") {
 			return "b"
 		}
 		return int64(2)
